@@ -301,7 +301,7 @@ impl Property for P {
     }
     fn cases(tier: Tier) -> u64 {
         match tier {
-            Tier::Quick => 300_000,
+            Tier::Quick => 1_200_000,
             Tier::Thorough => 16_000_000,
         }
     }
